@@ -50,10 +50,13 @@ NODES = {"a": ("float", 10.0, "m"), "b": ("float", 300.0, "cm"), "t": ("float", 
          "n": ("int", 4, None), "x": ("float", 0.5, None), "flag": ("bool", True, None), "off": ("bool", False, None),
          "name": ("str", "Will Smith", None), "id": ("int", 345, None), "w": ("float", 62.3, "kg"),
          "plank": ("int", 250, "cm"), "gap": ("int", 2, "m"), "pulse": ("int", 1, "us"), "window": ("int", 1000, "ns"),
-         "span": ("int", 3, "km"), "nul": ("float", None, "m"), "blank": ("str", None, None)}
+         "span": ("int", 3, "km"), "beam": ("float", 2.5, "m"), "nul": ("float", None, "m"), "blank": ("str", None, None)}
 # integer nodes compared with each other across units: (left, right) -> relation of left to right
 INT_PAIRS = [("plank", "gap", "gt"), ("gap", "plank", "lt"), ("pulse", "window", "eq"), ("window", "pulse", "eq"),
-             ("span", "plank", "gt"), ("plank", "span", "lt"), ("gap", "span", "lt")]
+             ("span", "plank", "gt"), ("plank", "span", "lt"), ("gap", "span", "lt"),
+             # an integer node against a float node
+             ("plank", "a", "lt"), ("a", "plank", "gt"), ("b", "gap", "gt"), ("gap", "b", "lt"), ("span", "a", "gt"),
+             ("n", "x", "gt"), ("x", "n", "lt"), ("plank", "beam", "eq"), ("beam", "plank", "eq")]
 RECIP = {"freq": "time", "time": "freq"}
 NODE_DIM = {"a": "len", "b": "len", "t": "time", "v": "vel", "n": "none", "x": "none"}
 
